@@ -1,7 +1,7 @@
 #!/bin/sh
 # confirm every new candidate under /tmp/seeds/<PID>_<k>/ and run the checks against it
 cd /verif || exit 2
-for d in /tmp/seeds/C??_?; do
+for d in ${SEED_DIRS:-/tmp/seeds/C??_?}; do
   [ -f "$d/patch.diff" ] || continue
   sid=$(basename "$d"); pid=${sid%_*}
   [ -d "seeded/$sid" ] && continue
